@@ -15,6 +15,11 @@ Definition rdfs_label : string := "http://www.w3.org/2000/01/rdf-schema#label".
 
 Definition is_kind (k : string) (ks : list string) : bool := existsb (String.eqb k) ks.
 
+(* the kind lists the writer and the reader test membership in come from the generated tables
+   (every `x in [kinds]` of encode_container / decode_container in source order): the model follows the source *)
+Definition enc_kinds (i : nat) : list string := nth i (map snd rdf_encode_memberships) [].
+Definition dec_kinds (i : nat) : list string := nth i (map snd rdf_decode_memberships) [].
+
 (* writer: predicate for attribute [attr] (a URI) of a relation record of kind [k];
    [formal] tells whether the attribute is one of the record's formal attributes *)
 Definition enc_pred (k : string) (attr : string) : string :=
@@ -30,9 +35,9 @@ Definition enc_pred (k : string) (attr : string) : string :=
   let p2 := step true (P "informant") (P "activity") p1 in
   let p3 := step true (P "responsible") (P "agent") p2 in
   let p4 := step (String.eqb k "Delegation") (P "activity") (P "hadActivity") p3 in
-  let p5 := if ((is_kind k ["End"; "Start"] && contains_str (P "trigger") p4)
-                || (String.eqb k "Usage" && contains_str (P "used") p4))%bool then P "entity" else p4 in
-  let tk := is_kind k ["Generation"; "End"; "Start"; "Usage"; "Invalidation"] in
+  let p5 := if ((is_kind k (enc_kinds 2) && contains_str (P "trigger") p4)
+                || (is_kind k (enc_kinds 3) && contains_str (P "used") p4))%bool then P "entity" else p4 in
+  let tk := is_kind k (enc_kinds 4) in
   let p6 := step tk (P "time") (P "atTime") p5 in
   let p7 := step tk (P "ender") (P "hadActivity") p6 in
   let p8 := step tk (P "starter") (P "hadActivity") p7 in
@@ -55,9 +60,9 @@ Definition dec_pred (k : string) (pred : string) : string :=
   let r := (s, uri) in
   let r := if (String.eqb k "Communication" && contains_str "activity" (fst r))%bool then ("prov:informant", P "informant") else r in
   let r := if (String.eqb k "Delegation" && contains_str "agent" (fst r))%bool then ("prov:responsible", P "responsible") else r in
-  let r := if (is_kind k ["End"; "Start"] && contains_str "entity" (fst r))%bool then ("prov:trigger", P "trigger") else r in
-  let r := if (String.eqb k "End" && contains_str "activity" (fst r))%bool then ("prov:ender", P "ender") else r in
-  let r := if (String.eqb k "Start" && contains_str "activity" (fst r))%bool then ("prov:starter", P "starter") else r in
+  let r := if (is_kind k (dec_kinds 0) && contains_str "entity" (fst r))%bool then ("prov:trigger", P "trigger") else r in
+  let r := if (is_kind k (dec_kinds 1) && contains_str "activity" (fst r))%bool then ("prov:ender", P "ender") else r in
+  let r := if (is_kind k (dec_kinds 2) && contains_str "activity" (fst r))%bool then ("prov:starter", P "starter") else r in
   let r := if (String.eqb k "Derivation" && contains_str "entity" (fst r))%bool then ("prov:usedEntity", P "usedEntity") else r in
   snd r.
 
@@ -70,7 +75,7 @@ Definition relation_kinds : list (string * list string) :=
 (* alternateOf has no qualified form: for that kind the writer emits the binary triple
    and skips everything else (known finding C07-F2 for identified alternates) *)
 Definition qualified_attrs (k : string) : list string :=
-  if String.eqb k "Alternate" then [] else
+  if is_kind k (enc_kinds 1) then [] else
   match lookup k relation_kinds with
   | Some (_ :: rest) => (map P rest ++ [P "role"; P "location"; P "label"])%list
   | _ => []
